@@ -18,7 +18,7 @@ ASSUMPTIONS = ["numpy slicing / boolean-mask assignment / argwhere order behave 
                "mazes are built through the public constructors (endpoints in the grid); solutions are non-empty",
                "from_pixels is modelled for odd x odd RGB images (every image as_pixels can produce); binary 2-D input goes through _from_pixel_grid_bw only"]
 TRUSTED = ["str.join/strip/split are modelled on lists of characters (joinLines/strip/splitLines), compared with the real strings on every case",
-           "the round trip with the ASCII text is proved on the character grid (C10_roundtrip_ascii_grid); the join/strip/split layer is covered by the correspondence"]
+           "the round trip with the ASCII text is proved on the text itself (C10_roundtrip_ascii: join, strip, split, per-line strip and np.array of the rows, on the list-of-characters model above)"]
 
 EXC = {"ValueError": "ValueError", "AssertionError": "AssertionError", "IndexError": "IndexError"}
 COMBOS = [(True, True), (True, False), (False, False), (False, True)]
